@@ -4,7 +4,20 @@ import subprocess
 from . import sx
 
 import os
-DRIVER = os.environ.get('VERIF_ROOT', '/verif') + '/ocaml/driver'
+OCAML = os.environ.get('VERIF_ROOT', '/verif') + '/ocaml'
+
+
+def driver_for(prop):
+    """path of the driver executable serving a property (ocaml/groups.map is written by tools/build_drivers.py)"""
+    prop = prop or os.environ.get('VERIF_PROP', '')
+    try:
+        for line in open(OCAML + '/groups.map'):
+            p, g = line.split()
+            if p == prop:
+                return OCAML + '/driver_' + g
+    except OSError:
+        pass
+    return OCAML + '/driver_' + prop.lower()
 
 
 class ModelError(Exception):
@@ -12,8 +25,8 @@ class ModelError(Exception):
 
 
 class Model:
-    def __init__(self, oracle=None):
-        self.p = subprocess.Popen([DRIVER], stdin=subprocess.PIPE, stdout=subprocess.PIPE,
+    def __init__(self, oracle=None, prop=None):
+        self.p = subprocess.Popen([driver_for(prop)], stdin=subprocess.PIPE, stdout=subprocess.PIPE,
                                   text=True, bufsize=1 << 16)
         self.oracle = oracle or {}
         self.calls = 0
